@@ -373,15 +373,33 @@ fn increasing(rng: &mut Rng, n: usize, style: u64) -> Vec<f64> {
         3 => 0.25, // dyadic
         _ => 1.0,
     };
+    if style == 4 {
+        // integer lines spread over almost the whole range in which f32 still represents every integer
+        let lim: i64 = 16_777_216;
+        let mut set = std::collections::BTreeSet::new();
+        set.insert(-lim + rng.range(0, 3));
+        set.insert(lim - rng.range(0, 3));
+        while set.len() < n + 1 {
+            let c = match rng.below(3) {
+                0 => rng.range(-lim, lim),
+                1 => *set.iter().nth(rng.below(set.len() as u64) as usize).unwrap() + rng.range(-2, 2),
+                _ => rng.range(-40, 40),
+            };
+            if c.abs() <= lim {
+                set.insert(c);
+            }
+        }
+        return set.into_iter().map(|c| c as f64).collect();
+    }
     v.into_iter().map(|c| c as f64 * scale).collect()
 }
 
-fn far_offset(rng: &mut Rng) -> (f64, f64) {
+fn far_offset(rng: &mut Rng, max_exp: i64) -> (f64, f64) {
     if rng.below(8) != 0 {
         return (0.0, 0.0);
     }
     let sgn = |rng: &mut Rng| if rng.below(2) == 0 { 1.0 } else { -1.0 };
-    (sgn(rng) * (2.0f64).powi(rng.range(30, 44) as i32), sgn(rng) * (2.0f64).powi(rng.range(30, 44) as i32))
+    (sgn(rng) * (2.0f64).powi(rng.range(30, max_exp) as i32), sgn(rng) * (2.0f64).powi(rng.range(30, max_exp) as i32))
 }
 
 /// D1: axis-parallel regions on a non-uniform integer (or dyadic) grid.
@@ -389,19 +407,52 @@ pub fn gen_rect(rng: &mut Rng, max_dim: usize) -> Case {
     let w = rng.range(1, max_dim as i64) as usize;
     let h = rng.range(1, max_dim as i64) as usize;
     let t = Tess::grid(w, h);
-    let (sa, ka) = select(rng, &t, None);
-    let (sb, kb) = select(rng, &t, Some(&sa));
-    let style = rng.below(4);
+    let (mut sa, mut ka) = select(rng, &t, None);
+    let (mut sb, mut kb) = select(rng, &t, Some(&sa));
+    if w >= 2 && rng.below(8) == 0 {
+        // A left of a grid line, B right of it: bounding boxes that merely touch (or are disjoint)
+        let k = rng.range(1, w as i64 - 1) as usize;
+        for f in 0..t.faces.len() {
+            let col = f % w;
+            if col >= k {
+                sa[f] = false;
+            } else {
+                sb[f] = false;
+            }
+        }
+        if rng.below(2) == 0 {
+            std::mem::swap(&mut sa, &mut sb);
+        }
+        ka = "split-left";
+        kb = "split-right";
+    }
+    let style = if rng.below(10) == 0 { 4 } else { rng.below(4) };
     let xs = increasing(rng, w, style);
     let ys = increasing(rng, h, style);
     let merge_a = rng.below(4) != 0;
     let merge_b = rng.below(4) != 0;
-    // now and then far from the origin (offsets 2^30..2^44 keep integer / dyadic coordinates exactly representable and
+    // now and then far from the origin (offsets 2^30..2^50 keep integer / dyadic coordinates exactly representable and
     // all of the library's arithmetic exact): small shapes with huge absolute coordinates
-    let (fx, fy) = far_offset(rng);
+    let (mut fx, mut fy) = if style == 4 { (0.0, 0.0) } else { far_offset(rng, if style == 3 { 44 } else { 50 }) };
+    // or (integer grids only) close to the largest integers that f32 still represents exactly: all coordinates stay
+    // exact in f32 (|x| < 2^24) while sums of box extents do not
+    let mut near_f32_limit = false;
+    if fx == 0.0 && style != 3 && style != 4 && rng.below(8) == 0 {
+        let sgn = |rng: &mut Rng| if rng.below(2) == 0 { 1.0 } else { -1.0 };
+        let span = xs[w] - xs[0] + 16.0;
+        let spany = ys[h] - ys[0] + 16.0;
+        fx = sgn(rng) * (16_777_216.0 - span - rng.below(4_000_000) as f64);
+        fy = sgn(rng) * (16_777_216.0 - spany - rng.below(4_000_000) as f64);
+        fx -= xs[0].min(0.0) + if fx > 0.0 { xs[w].max(0.0) } else { 0.0 };
+        fy -= ys[0].min(0.0) + if fy > 0.0 { ys[h].max(0.0) } else { 0.0 };
+        near_f32_limit = true;
+    }
     let map = |p: P| -> Pt { (xs[p.0 as usize] + fx, ys[p.1 as usize] + fy) };
     let a = t.to_mp(&sa, merge_a, &map);
     let b = t.to_mp(&sb, merge_b, &map);
+    if near_f32_limit && rings(&a).chain(rings(&b)).flatten().any(|q| q.0.abs() > 16_777_216.0 || q.1.abs() > 16_777_216.0 || (q.0 as f32 as f64) != q.0 || (q.1 as f32 as f64) != q.1) {
+        near_f32_limit = false;
+    }
     let faces = (0..t.faces.len()).map(|f| (t.centroid(f, &map), sa[f], sb[f])).collect();
     Case {
         family: "D1-rect",
@@ -409,9 +460,11 @@ pub fn gen_rect(rng: &mut Rng, max_dim: usize) -> Case {
         a,
         b,
         exact: true,
-        exact_f32: fx == 0.0,
+        // style 4 spreads unit-sized features over the whole +-2^24 range: in f32 they are at the resolution limit
+        // (far below the f32 tolerance), so that family runs in f64 only
+        exact_f32: (fx == 0.0 || near_f32_limit) && style != 4,
         integer: style != 3,
-        f32_ok: fx == 0.0,
+        f32_ok: (fx == 0.0 || near_f32_limit) && style != 4,
         self_crossing: false,
         faces,
     }
@@ -429,7 +482,7 @@ pub fn gen_lattice(rng: &mut Rng, max_dim: usize) -> Case {
     let merge_b = rng.below(4) != 0;
     // isotropic power-of-two scale and integer offset keep the lattice property
     let k = [1.0, 1.0, 2.0, 0.5, 16.0][rng.below(5) as usize];
-    let (fx, fy) = far_offset(rng);
+    let (fx, fy) = far_offset(rng, if k >= 1.0 { 50 } else { 44 });
     let (ox, oy) = (rng.range(-6, 6) as f64 + fx, rng.range(-6, 6) as f64 + fy);
     let map = |p: P| -> Pt { (p.0 as f64 * k + ox, p.1 as f64 * k + oy) };
     let a = t.to_mp(&sa, merge_a, &map);
@@ -837,6 +890,17 @@ pub fn comb_corner(n: usize) -> (MP, MP) {
     let a: MP = (0..n).map(|i| vec![rect_ring(0.0, i as f64, 100.0, i as f64 + 0.5)]).collect();
     let top = n as f64;
     let b: MP = vec![vec![rect_ring(-1.0, top - 0.75, 1.0, top + 1.0)]];
+    (a, b)
+}
+
+/// a "staircase": thin rectangles stacked vertically, the higher the further left they start, against a small box near
+/// the top: segments enter the status structure from the top down, so the chain leans the other way
+pub fn staircase(n: usize) -> (MP, MP) {
+    let step = 1.0 / 1024.0;
+    let a: MP = (0..n).map(|i| vec![rect_ring(-(i as f64) * step, i as f64, 100.0, i as f64 + 0.5)]).collect();
+    let top = n as f64;
+    let left = -(n as f64) * step;
+    let b: MP = vec![vec![rect_ring(left - 2.0, top - 0.75, 101.0 - 99.5, top + 1.0)]];
     (a, b)
 }
 
